@@ -206,6 +206,13 @@ VARIANTS = [
     # ---------------- R-COUNTWIDTH (C01, C20)
     V("count kernel sums a uint8 view of the validity mask", ("C01", "C20"), "R-COUNTWIDTH", "aggregate_flox.py", '    return sum(group_idx, (notnull(array)).astype(int), *args, **kwargs)', '    return sum(group_idx, notnull(array).view(np.uint8), *args, **kwargs)', must_mention="nanlen"),
     V("twin: count kernel widens with np.intp", ("C01", "C20"), "", "aggregate_flox.py", '    return sum(group_idx, (notnull(array)).astype(int), *args, **kwargs)', '    return sum(group_idx, notnull(array).astype(np.intp), *args, **kwargs)', expect="silent"),
+    # ---------------- R-NANFINAL (C02, C04)
+    V("variance finalizer clips with the NaN-ignoring fmax", ("C02", "C04"), "R-NANFINAL", "aggregations.py", '        result = (sumsq - (sum_**2 / count)) / (count - ddof)', '        result = np.fmax(sumsq - (sum_**2 / count), 0) / (count - ddof)', must_mention="_var_finalize"),
+    V("twin: variance finalizer clips with the NaN-propagating maximum", ("C02", "C04"), "", "aggregations.py", '        result = (sumsq - (sum_**2 / count)) / (count - ddof)', '        result = np.maximum(sumsq - (sum_**2 / count), 0) / (count - ddof)', expect="silent"),
+    # ---------------- R-ROUNDTRIP (C11)
+    V("datetime results cast back only when they are still integers", ("C11",), "R-ROUNDTRIP", "core.py", '        if is_npdatetime:\n            result = result.astype(datetime_dtype)', '        if is_npdatetime and result.dtype.kind in "iu":\n            result = result.astype(datetime_dtype)', must_mention="datetime"),
+    # ---------------- R-PAIRS[transpose] (C07)
+    V("grouper dims reordered with the inverse permutation", ("C07",), "R-PAIRS[transpose]", "xarray.py", '        order = [dims.index(d) for d in core_dims[0] if d in dims]\n', '        target = [d for d in core_dims[0] if d in dims]\n        order = [target.index(d) for d in dims]\n', must_mention="inverse"),
     # ---------------- R-LOOPSTORE (C09, C19)
     V("cohort map overwrites a repeated block set", ("C09", "C19"), "R-LOOPSTORE", "core.py", '        merged_cohorts[chunk] = sorted(merged_cohorts.get(chunk, []) + cohort)', '        merged_cohorts[chunk] = cohort', must_mention="merged_cohorts"),
     V("twin: cohort map merges under an explicit membership test", ("C09", "C19", "C02"), "", "core.py", '        merged_cohorts[chunk] = sorted(merged_cohorts.get(chunk, []) + cohort)',
